@@ -15,6 +15,11 @@ CHECKS["C01"] = ("exploration",
     "Every n-tuple of prediction rows from an interior-simplex menu (lattice, near one-hot, near uniform) for small (K,n), crossed with a menu of named kernels/metrics with parameters, callables and precomputed (PSD and indefinite) matrices, is scored through the 13 registry names, the 6 classes with both ovo flags, MI, and DiscriminativeModel.score on a stub model; each value is compared with the definition computed independently (explicit sums over atoms, transport LP). Complete inside the stated bound; a wrong constant, swapped OvA/OvO branch, dropped weight or mis-mapped name is caught on the first non-trivial matrix.",
     "Trusts scikit-learn's pairwise functions as the meaning of kernel/metric names and scipy HiGHS for the reference LP (bracketed by primal/dual bounds); real-valued inputs outside the menus are not explored.",
     "5/C01")
+CHECKS["C02"] = ("exploration",
+    "bounded-exhaustive enumeration of (GEMINI, ovo, affinity, shape, logit scale, logit table) with two-step finite-difference oracle on the real evaluate()",
+    "For every class/ovo flag, every shape n<=5(7) x K<=4(5), five logit scales from soft to saturated, the affinity menu, seed-generic logit tables and ALL tuples of perturbed interior-lattice rows (to sweep TV sign patterns and OT bases), the returned gradient is pushed through the softmax chain rule and compared with central differences of the returned score (steps h and h/8 must agree for the point to count as differentiable), and along every simplex tangent e_a-e_b; plus score equality with/without return_grad, gradient shape and exact zeros on clipped entries.",
+    "Finite differences at two step sizes decide differentiability; kink points and MMD points whose distance is below floating-point resolution only get the finiteness/shape/clip checks. Values are seed-generic, structure is complete inside the bound.",
+    "5/C02")
 NOT_APPLICABLE = {}
 
 def main():
